@@ -214,10 +214,12 @@ fn material(h: &str, c: &Conc) -> (Vec<u8>, Vec<u8>, Vec<u8>, Vec<u8>) {
             let p = c.psk.clone();
             let n = p.len();
             // proper prefixes of the PSK; pick 3: a proper suffix
-            let near = match k % 4 {
+            let near = match k % 5 {
                 0 => p[..n - 1].to_vec(),
                 1 => p[..1].to_vec(),
                 2 => p[..n.div_ceil(2).min(n - 1)].to_vec(),
+                // a prefix that is shorter by a multiple of 256 octets (lengths compared modulo a machine type)
+                3 if n >= 256 => p[..n - 256].to_vec(),
                 _ => p[1..].to_vec(),
             };
             (p.clone(), swap_case(&p), near, join(&p, &p))
@@ -228,7 +230,24 @@ fn material(h: &str, c: &Conc) -> (Vec<u8>, Vec<u8>, Vec<u8>, Vec<u8>) {
 
 fn padded(p: &[u8], k: usize) -> Vec<u8> {
     let mut v = Vec::new();
-    match k % 6 {
+    match k % 10 {
+        // the PSK followed / preceded by a block whose length is a multiple (or nearly) of 256 octets
+        6 => {
+            v.extend_from_slice(p);
+            v.extend(std::iter::repeat_n(b'x', 256));
+        }
+        7 => {
+            v.extend(std::iter::repeat_n(b'x', 256));
+            v.extend_from_slice(p);
+        }
+        8 => {
+            v.extend_from_slice(p);
+            v.extend(std::iter::repeat_n(b'y', 512));
+        }
+        9 => {
+            v.extend_from_slice(p);
+            v.extend(std::iter::repeat_n(b'x', 255));
+        }
         0 => {
             v.extend_from_slice(p);
             v.push(b' ');
@@ -437,7 +456,14 @@ struct Ctx {
 async fn run_case(ctx: &mut Ctx, case: &Value) -> Result<Value, String> {
     let base = &ctx.base;
     let conc = Conc {
-        psk: case["conc"]["psk"].as_array().and_then(|_| bytes_of(&case["conc"]["psk"])).unwrap_or_else(|| DEFAULT_PSK.to_vec()),
+        // enumerated cases carry no material: even picks use the short default PSK, odd picks one of exactly 256 octets
+        psk: case["conc"]["psk"].as_array().and_then(|_| bytes_of(&case["conc"]["psk"])).unwrap_or_else(|| {
+            if case["pick"].as_u64().unwrap_or(0) % 2 == 1 {
+                (0..256u32).map(|i| b"Correct-Horse 42"[(i % 16) as usize] ^ ((i / 16) as u8 & 1)).map(|b| if b == b' ' || b < 33 { b'_' } else { b }).collect()
+            } else {
+                DEFAULT_PSK.to_vec()
+            }
+        }),
         key: case["conc"]["key"].as_array().and_then(|_| bytes_of(&case["conc"]["key"])).unwrap_or_else(|| SAMPLE_KEY.as_bytes().to_vec()),
         pick: case["conc"]["pick"].as_u64().or_else(|| case["pick"].as_u64()).unwrap_or(0) as usize,
     };
@@ -530,7 +556,14 @@ fn random_case(rng: &mut Rng, id: usize, echo: bool) -> Value {
     }
     // a random PSK: 2..=24 octets allowed in a header value, at least one letter (so that a case variant exists),
     // no whitespace at either end
-    let n = 2 + rng.below(23);
+    // mostly short; one in five has a length at or around a multiple of 256
+    let n = match rng.below(20) {
+        0 => 255,
+        1 => 256,
+        2 => 257,
+        3 => 512,
+        _ => 2 + rng.below(23),
+    };
     let mut psk: Vec<u8> = (0..n)
         .map(|_| match rng.below(20) {
             0 => b' ',
